@@ -21,6 +21,8 @@ fn main() {
     let code = match args[1].as_str() {
         "pipeline" => cmd_pipeline(&args[2..]),
         "challenger" => cmd_challenger(&args[2..]),
+        "digest" => cmd_digest(&args[2..]),
+        "runner-faults" => cmd_runner_faults(&args[2..]),
         "scenarios" => {
             // p3r scenarios --out result.json
             let out = arg(&args[2..], "--out").expect("--out");
@@ -351,5 +353,150 @@ fn cmd_challenger(args: &[String]) -> i32 {
     stats.insert("distinct_nontrivial".into(), distinct.lock().unwrap().len() as u64);
     let result = json!({"stats": stats, "findings": groups, "samples": *samples.lock().unwrap(), "errors": []});
     std::fs::write(&out, serde_json::to_string_pretty(&result).unwrap()).unwrap();
+    0
+}
+
+/// p3r digest --in progs.ndjson --every K --out digests.txt
+/// One line per selected program: index, digest, per-part digests.  Run in several processes
+/// (different hash seeds) and compare the files.
+fn cmd_digest(args: &[String]) -> i32 {
+    use p3_circuit_prover::batch_stark_prover::TablePacking;
+    let input = arg(args, "--in").expect("--in");
+    let out = arg(args, "--out").expect("--out");
+    let every: usize = arg(args, "--every").and_then(|s| s.parse().ok()).unwrap_or(1);
+    let f = std::fs::File::open(&input).expect("open input");
+    let mut w = std::io::BufWriter::new(std::fs::File::create(&out).expect("create"));
+    let packing = TablePacking::new(1, 2);
+    for (i, line) in BufReader::new(f).lines().enumerate() {
+        if i % every != 0 {
+            continue;
+        }
+        let line = line.unwrap();
+        let Ok(rec) = serde_json::from_str::<Rec>(&line) else { continue };
+        let prog = rec.program();
+        // build twice in this process as well
+        let (Ok(b1), Ok(b2)) = (pipeline::build(&prog), pipeline::build(&prog)) else {
+            writeln!(w, "{i} build-refused").unwrap();
+            continue;
+        };
+        let d1 = pipeline::digest(&b1, &packing);
+        let d2 = pipeline::digest(&b2, &packing);
+        match (d1, d2) {
+            (Ok((a, pa)), Ok((b, _))) => {
+                let parts: Vec<String> = pa.iter().map(|(k, v)| format!("{k}={v:016x}")).collect();
+                writeln!(w, "{i} {a:016x} same_process_rebuild={} {}", a == b, parts.join(" ")).unwrap();
+            }
+            (Err(e), _) | (_, Err(e)) => writeln!(w, "{i} error {}", e.chars().take(60).collect::<String>().replace(' ', "_")).unwrap(),
+        }
+    }
+    0
+}
+
+/// p3r runner-faults --in progs.ndjson --every K --seed N --out outcomes.txt
+/// For each selected program and each input-fault scenario of the Runner model: the outcome class
+/// (ok / err / panic).  The caller runs this in a debug and in a release build and compares.
+fn cmd_runner_faults(args: &[String]) -> i32 {
+    use p3_field::PrimeCharacteristicRing;
+    use p3r_verif_harness::pipeline::F;
+    let input = arg(args, "--in").expect("--in");
+    let out = arg(args, "--out").expect("--out");
+    let every: usize = arg(args, "--every").and_then(|s| s.parse().ok()).unwrap_or(1);
+    let seed: u64 = arg(args, "--seed").and_then(|s| s.parse().ok()).unwrap_or(1);
+    let f = std::fs::File::open(&input).expect("open input");
+    let mut w = std::io::BufWriter::new(std::fs::File::create(&out).expect("create"));
+    let scenarios = ["honest", "no_public", "short_public", "long_public", "no_private", "short_private", "long_private",
+        "public_twice_same", "public_twice_different", "private_twice_different"];
+    for (i, line) in BufReader::new(f).lines().enumerate() {
+        if i % every != 0 {
+            continue;
+        }
+        let line = line.unwrap();
+        let Ok(rec) = serde_json::from_str::<Rec>(&line) else { continue };
+        let prog = rec.program();
+        let Ok(built) = pipeline::build(&prog) else { continue };
+        let mut rng = pipeline::seeded(seed, i as u64);
+        let Some(x) = pipeline::find_satisfying(&prog, &mut rng, false) else { continue };
+        let pubs: Vec<F> = x[..prog.npub].iter().map(|v| v.0).collect();
+        let privs: Vec<F> = x[prog.npub..].iter().map(|v| v.0).collect();
+        let c = &built.circuit;
+        let mut cols = Vec::new();
+        for sc in scenarios {
+            let r = std::panic::catch_unwind(std::panic::AssertUnwindSafe(|| -> Result<(), String> {
+                let mut runner = c.runner();
+                let mut p = pubs.clone();
+                let mut v = privs.clone();
+                let e = |e: p3_circuit::CircuitError| format!("{e:?}");
+                match sc {
+                    "no_public" => {}
+                    "short_public" => {
+                        p.pop();
+                        runner.set_public_inputs(&p).map_err(e)?
+                    }
+                    "long_public" => {
+                        p.push(F::ONE);
+                        runner.set_public_inputs(&p).map_err(e)?
+                    }
+                    "public_twice_same" => {
+                        runner.set_public_inputs(&p).map_err(e)?;
+                        runner.set_public_inputs(&p).map_err(e)?
+                    }
+                    "public_twice_different" => {
+                        runner.set_public_inputs(&p).map_err(e)?;
+                        for q in p.iter_mut() {
+                            *q += F::ONE;
+                        }
+                        runner.set_public_inputs(&p).map_err(e)?
+                    }
+                    _ => runner.set_public_inputs(&p).map_err(e)?,
+                }
+                match sc {
+                    "no_private" => {}
+                    "short_private" => {
+                        v.pop();
+                        runner.set_private_inputs(&v).map_err(e)?
+                    }
+                    "long_private" => {
+                        v.push(F::ONE);
+                        runner.set_private_inputs(&v).map_err(e)?
+                    }
+                    "private_twice_different" => {
+                        runner.set_private_inputs(&v).map_err(e)?;
+                        for q in v.iter_mut() {
+                            *q += F::ONE;
+                        }
+                        runner.set_private_inputs(&v).map_err(e)?
+                    }
+                    _ => {
+                        if c.private_flat_len > 0 {
+                            runner.set_private_inputs(&v).map_err(e)?
+                        }
+                    }
+                }
+                runner.run().map(|_| ()).map_err(e)
+            }));
+            let class = match r {
+                Ok(Ok(())) => "ok".to_string(),
+                Ok(Err(e)) => format!("err:{}", e.split(|c: char| !c.is_alphanumeric()).next().unwrap_or("")),
+                Err(_) => "panic".to_string(),
+            };
+            cols.push(format!("{sc}={class}"));
+        }
+        // private input slots that an op or another input row also writes: their value does not depend on the caller
+        let aliased = c.private_input_rows.iter().any(|p| c.public_rows.contains(p) || c.ops.iter().any(|op| match op {
+            p3_circuit::Op::Const { out, .. } | p3_circuit::Op::Public { out, .. } => out == p,
+            p3_circuit::Op::Alu { out, b, .. } => out == p || b == p,
+            _ => false,
+        }));
+        let pub_aliased = !c.public_rows.is_empty() && c.public_rows.iter().all(|p| c.private_input_rows.contains(p) || c.ops.iter().any(|op| match op {
+            p3_circuit::Op::Const { out, .. } => out == p,
+            p3_circuit::Op::Alu { out, b, .. } => out == p || b == p,
+            _ => false,
+        }));
+        writeln!(w, "{i} npub={} npriv={} m19={} priv_aliased={} pub_aliased={} {}", prog.npub, prog.npriv, rec.m19.map(|b| b.to_string()).unwrap_or_else(|| "na".into()), aliased, pub_aliased, cols.join(" ")).unwrap();
+    }
+    // non-primitive executors: a permutation fed by a private input / a public input
+    for (name, class) in p3r_verif_harness::scenarios::npo_runner_faults() {
+        writeln!(w, "npo {name}={class}").unwrap();
+    }
     0
 }
